@@ -2,6 +2,7 @@ import FluteModel.FdtAbs
 import FluteModel.Spec.FdtSpec
 import FluteModel.Lemmas.FdtAbs
 import FluteModel.Lemmas.FdtSched
+import FluteModel.Lemmas.FdtSchedPoll
 /-
   Property C10 - FDT instances list exactly the announced objects, survive XML, fresh id / expiry.
   All theorems quantify over every configuration and every operation history
@@ -464,6 +465,34 @@ theorem sched_instances_are_abstract (A : FdtSched.Ann) (S : Sched.Cfg) (hc : Fd
     have hid := id_sequence A.cfg (by rw [hc.startId.1]; exact hc.startId.2) aops k p hpk
     refine ⟨aops, p, hpk, h1.1.symm, h1.2.symm, ?_, published_is_instanceAt A.cfg aops p (List.mem_of_getElem? hpk)⟩
     rw [← h1.1, hid, hc.startId.1]
+
+/-! ### republication in terms of `read()` calls -/
+
+/-- `read_supersedes`: what `superseded_before_expiry_partial` calls a "poll of the idle FDT session" is a `read()` call made
+    while no FDT instance is being transmitted or waiting (`Sender::read` polls the FDT session first): after ANY history of
+    the scheduler model, such a `read(now)` with `now > last publish + fdt_duration - 5 s` (duration > 30 s, FDT admitted)
+    publishes the successor in that very call.  With `sched_instances_are_abstract` the new scheduler instance is the next
+    abstract publication.  NOT proved: a bound on how many consecutive `read()` calls can be busy transmitting an FDT instance
+    (one packet per call, so its packet count) - the remaining gap between "read every δ" and "polled every δ". -/
+theorem read_supersedes (S : Sched.Cfg) (tbl : List Nat) (ops : List Sched.Op) (now lp : Nat) (ticks : List (Nat × Nat))
+    (hd : S.fdtDuration > 30000000000) (hfit : S.fdtFits = true)
+    (hidle : (Sched.run (Sched.init S tbl) ops).fdtSess = none)
+    (hq : (Sched.run (Sched.init S tbl) ops).fdtQueue = [])
+    (hlp : (Sched.run (Sched.init S tbl) ops).lastPublish = some lp)
+    (hdue : lp + S.fdtDuration - 5000000000 < now) :
+    (Sched.run (Sched.init S tbl) ops).fdts.length + 1 ≤
+      (Sched.run (Sched.init S tbl) (ops ++ [.read now ticks])).fdts.length :=
+  FdtSched.read_supersedes S tbl ops now lp ticks hd hfit hidle hq hlp hdue
+
+/-- non-vacuity: duration 60 s, published and sent at time 0, `read` at 56 s -/
+example :
+    let S : Sched.Cfg := { mode := .full, fdtCarousel := .delay 100000000000, fdtDuration := 60000000000, fdtStartId := 5,
+                           queues := [(0, 1)] }
+    let ops : List Sched.Op := [.publish 0, .read 0 [], .read 0 []]
+    (Sched.run (Sched.init S []) ops).fdtSess = none ∧ (Sched.run (Sched.init S []) ops).fdtQueue = [] ∧
+    (Sched.run (Sched.init S []) ops).lastPublish = some 0 ∧
+    (Sched.run (Sched.init S []) (ops ++ [.read 56000000000 []])).fdts.length = 2 := by
+  decide
 
 /-- `getFile` finds a listed file by its TOI whenever the listed TOIs are pairwise different ... -/
 theorem find_toi_of_nodup (l : List AFile) (h : (l.map (fun f => f.toi)).Nodup) (f : AFile) (hf : f ∈ l) :
